@@ -49,6 +49,10 @@ def operands_of(case):
     for i, dtname in (case.get("int_operands") or {}).items():
         if int(i) < len(specs) and not specs[int(i)]["int"]:
             specs[int(i)] = dict(specs[int(i)], int=True, diff=False, idtype=dtname, hard=True)
+    # integer-valued inputs handed over as integer tensors (pixel data, counts): case["int_inputs"] = {operand index: dtype name}
+    for i, dtname in (case.get("int_inputs") or {}).items():
+        if int(i) < len(specs) and not specs[int(i)]["int"] and specs[int(i)].get("vclass") not in ("prob", "positive", "runvar"):
+            specs[int(i)] = dict(specs[int(i)], int=True, diff=False, idtype=dtname, rounded=True)
     return specs
 
 
@@ -60,6 +64,8 @@ def materialize(case, rng=None):
         v = nncatalog.operand_values(rng, sp, case["a"])
         if sp.get("hard"):
             v = (np.asarray(v) > 0.5).astype(sp["idtype"])
+        elif sp.get("rounded"):
+            v = np.clip(np.rint(np.asarray(v, dtype=np.float64) * 3), 0 if sp["idtype"].startswith("u") else -100, 100).astype(sp["idtype"])
         xs.append(np.asarray(v))
     return specs, xs
 
